@@ -4,13 +4,25 @@
 (* the ResponseWriter can flush (Upgrade), the Last-Event-Id header, what  *)
 (* OnSession answers and what the provider's Subscribe returns - to what   *)
 (* it must do: the subscription handed to the provider and what the server *)
-(* itself writes.  Properties served: C16 (second sentence).               *)
+(* itself writes; and Server.Publish's choice of topics.                   *)
+(*                                                                         *)
+(* The state machine is a process serving a sequence of operations         *)
+(* (requests and publishes, on any Server values): what each operation     *)
+(* must do is a function of that operation alone - nothing a request       *)
+(* leaves behind (in the Server, or in package-level state such as the     *)
+(* shared default-topic slice) may change what a later one sees.  TLC      *)
+(* exports every sequence of MaxOps operations with the expectation of     *)
+(* each; `vdriver serve` runs them in one process.                         *)
+(* Properties served: C16 (second sentence).                               *)
 (***************************************************************************)
 EXTENDS Integers, Sequences, FiniteSets, TLC, Json
 
+CONSTANT MaxOps
+
 Flushable == BOOLEAN
 LastIDs   == {"absent", "empty", "ok", "multiline"}
-OnSession == {"unset", "reject", "accept-no-topics", "accept-empty-topics", "accept-topics"}   \* no topics: nil; empty: a non-nil empty list
+\* no topics: nil; empty: a non-nil empty list; one / two topics
+OnSession == {"unset", "reject", "accept-no-topics", "accept-empty-topics", "accept-one-topic", "accept-topics"}
 Provider  == {"nil", "err"}
 
 Cases == [flushable : Flushable, lid : LastIDs, onsession : OnSession, provider : Provider]
@@ -23,18 +35,31 @@ Expected(c) ==
     ELSE
         [subscribed |-> TRUE,
          lidset |-> c.lid = "ok",                                            \* unset when absent, empty or invalid
-         topics |-> IF c.onsession = "accept-topics" THEN "given" ELSE "default",
+         topics |-> CASE c.onsession = "accept-topics" -> "given2"
+                      [] c.onsession = "accept-one-topic" -> "given1"
+                      [] OTHER -> "default",
          status |-> IF c.provider = "err" THEN 500 ELSE 200,                  \* refused before anything was sent
          wrote |-> IF c.provider = "err" THEN "error" ELSE "nothing"]
 
-VARIABLE done
-Init == done = FALSE
-Next == ~done /\ done' = TRUE
-Spec == Init /\ [][Next]_done
+\* Server.Publish(msg, topics...): the provider is given the topics, DefaultTopic if none
+PubTopics == {"none", "one", "two"}
+PubExpected(t) == IF t = "none" THEN "default" ELSE IF t = "one" THEN "given1" ELSE "given2"
+
+Ops == [op : {"request"}, c : Cases, t : {"none"}] \cup [op : {"publish"}, c : {CHOOSE c \in Cases : TRUE}, t : PubTopics]
+
+VARIABLE hist
+Init == hist = <<>>
+Next == Len(hist) < MaxOps /\ \E o \in Ops : hist' = Append(hist, o)
+Spec == Init /\ [][Next]_hist
 
 \* the server writes of its own accord only to report a failure
 WritesOnlyOnFailure == \A c \in Cases : Expected(c).wrote # "nothing" <=> Expected(c).status = 500
 RejectedIsSilent == \A c \in Cases : (c.flushable /\ c.onsession = "reject") => ~Expected(c).subscribed /\ Expected(c).wrote = "nothing"
 
-Export == done => PrintT(ToJson([cases |-> {[c |-> c, e |-> Expected(c)] : c \in Cases}]))
+\* the expectation of every operation of a sequence: its own, whatever came before (independence)
+WithExpectation(o) == IF o.op = "request" THEN [op |-> "request", c |-> o.c, e |-> Expected(o.c), t |-> "", pe |-> ""]
+                      ELSE [op |-> "publish", c |-> o.c, e |-> Expected(o.c), t |-> o.t, pe |-> PubExpected(o.t)]
+\* sequences whose first operation cannot leave anything behind are covered by their suffix
+Interesting == Len(hist) = 1 \/ (hist[1].op = "request" /\ hist[1].c.flushable /\ hist[1].c.provider = "nil" /\ hist[1].c.lid \in {"absent", "ok"})
+Export == (hist # <<>> /\ Interesting) => PrintT(ToJson([ops |-> [i \in 1..Len(hist) |-> WithExpectation(hist[i])]]))
 =============================================================================
